@@ -125,6 +125,23 @@ func (m *monRoll) TaskEnd(s *Sim, t *Task) {
 				s.Violate("C04", "M1", "outside", "%s (canary) created a pod on node %s, canary nodes are %v", t.Label(), c.Node, v.EDS.Status.Canary.Nodes)
 			}
 		}
+		// every other eligible node keeps being served with the active template: the canary
+		// role must not take away the only pod of a non-canary node that pod is entitled to
+		for _, c := range v.PodDeletes {
+			for _, p := range v.Pods {
+				if p.Namespace != c.NS || p.Name != c.Name {
+					continue
+				}
+				node := podNode(p)
+				n := v.Nodes[node]
+				if f.canary[node] || n == nil || len(f.byNode[node]) != 1 || p.Status.Phase == corev1.PodFailed {
+					continue
+				}
+				if p.Labels[edsv1.ExtendedDaemonSetReplicaSetNameLabelKey] == v.EDS.Status.ActiveReplicaSet && eligibleSpec(n, &p.Spec) {
+					s.Violate("C04", "M4", "canary-deletes-outside", "%s (canary) deleted pod %s of the active replica set on node %s, which is not a canary node and is eligible for that pod", t.Label(), p.Name, node)
+				}
+			}
+		}
 	case "active":
 		if len(f.canary) > 0 {
 			s.Stats.NonVacuous["C04.active-with-canary"]++
